@@ -93,12 +93,15 @@ Fin == /\ det /\ ph = "fin"
           /\ cs' = r.cs /\ em' = <<>> /\ det' = (det /\ r.det)
           /\ store' = StoreAfter(store, r.cs, r.tmoved, tdirty) /\ tdirty' = FALSE
        /\ ph' = "obs" /\ hb' = 0 /\ UNCHANGED <<h, l, nb, inq>>
+\* bindings of a service machine: the error text a failed request leaves behind is not compared (only the pattern
+\* variables it may leave bound - the Wedge deviation - change what the machine does next)
+SvcBs(bs) == LET n == NormBs(bs) IN [k \in DOMAIN n \ {"error"} |-> n[k]]
 NormMs(ms) == [k \in DOMAIN ms |-> [spec |-> ms[k].spec, st |-> NormSt(ms[k].st)]]
 Obs == /\ det /\ ph = "obs"
        /\ LET o == Steps[l] IN
           /\ NormMs(o.store.ms) = NormMs(store.ms)
           /\ o.store.tm.map = store.tm.map
-          /\ NormBs(o.store.tm.bs) = NormBs(store.tm.bs)
+          /\ SvcBs(o.store.tm.bs) = SvcBs(store.tm.bs)
           /\ o.store.tm.node = "start"
        /\ l' = l + 1 /\ ph' = "act"
        /\ UNCHANGED <<h, nb, hb, cs, store, inq, tdirty, em, det>>
